@@ -325,9 +325,14 @@ def judge(ctx, cases, model_out, impl_out, oracle=None, label='', normalize=None
             stats['disagreements'] += 1
             disagreements.append((c, i, m))
     prop_viol.sort(key=lambda t: len(canon(t[0])))
-    for c, i, m, msg in prop_viol[:max_report]:
-        ctx.violation('property', label + ' ' + msg, {'case': c, 'impl': i, 'model': m})
-    if disagreements and not prop_viol:
+    reported = 0
+    for c, i, m, msg in prop_viol:
+        # (a violation that is a listed known finding is not counted: a different one behind it must still be reported)
+        if ctx.violation('property', label + ' ' + msg, {'case': c, 'impl': i, 'model': m}):
+            reported += 1
+            if reported >= max_report:
+                break
+    if disagreements and not reported:
         disagreements.sort(key=lambda t: len(canon(t[0])))
         c, i, m = disagreements[0]
         ctx.violation('correspondence', label + ' model and implementation disagree on %d of %d cases; smallest shown'
